@@ -404,3 +404,58 @@ Section RescaleZFields.
     = snd (predict_batch Z.ltb zero (sup_fit Z.ltb zero top labels w) ds).
   Proof. apply rescale_predict_Z, rescale_sup_fit_Z. Qed.
 End RescaleZFields.
+
+(* ---------- same sentinel in both runs ----------
+
+   The library uses one constant FLOAT_MAX as [top] whatever the metric, so for two metrics
+   [w2 = f o w1] the second run has [top2 = top1], not [f top1].  It is enough that the sentinel
+   compares with the transformed weights as it did with the original ones.  The relation is
+   "[b = f a] on the values [P], or both are the sentinel"; costs are related by it
+   (a cost is the sentinel only for a node never reached). *)
+Section Sentinel.
+  Context {W1 W2 : Type} (P : W1 -> Prop) (f : W1 -> W2).
+  Variables (ltb1 : W1 -> W1 -> bool) (ltb2 : W2 -> W2 -> bool).
+  Variables (zero1 top1 : W1) (zero2 top2 : W2).
+  Hypothesis Hmono : forall a b, P a -> P b -> ltb2 (f a) (f b) = ltb1 a b.
+  Hypothesis Htop_l : forall a, P a -> ltb2 (f a) top2 = ltb1 a top1.
+  Hypothesis Htop_r : forall a, P a -> ltb2 top2 (f a) = ltb1 top1 a.
+  Hypothesis Htop_t : ltb2 top2 top2 = ltb1 top1 top1.
+  Hypothesis Hzero : zero2 = f zero1.
+  Hypothesis HPzero : P zero1.
+
+  Definition rel_sentinel (a : W1) (b : W2) : Prop := (P a /\ b = f a) \/ (a = top1 /\ b = top2).
+
+  Let Hltb : forall a b, rel_sentinel a b -> forall a' b', rel_sentinel a' b' -> ltb1 a a' = ltb2 b b'.
+  Proof.
+    intros a b [[Ha ->]|[-> ->]] a' b' [[Ha' ->]|[-> ->]]; symmetry; auto.
+  Qed.
+
+  Theorem monotone_transform_sentinel labels w1 w2 :
+    (forall p q, P (w1 p q)) -> (forall p q, w2 p q = f (w1 p q)) ->
+    nodes_rel rel_sentinel (sup_fit ltb1 zero1 top1 labels w1) (sup_fit ltb2 zero2 top2 labels w2).
+  Proof.
+    intros HP Hw. apply (param_sup_fit rel_sentinel ltb1 ltb2 Hltb).
+    - left. split; [exact HPzero | exact Hzero].
+    - right. now split.
+    - intros p q. left. split; [apply HP | apply Hw].
+  Qed.
+
+  Theorem monotone_transform_sentinel_predict labels w1 w2 ds1 ds2 :
+    (forall p q, P (w1 p q)) -> (forall p q, w2 p q = f (w1 p q)) ->
+    Forall2 (fun d1 d2 => forall k, P (d1 k) /\ d2 k = f (d1 k)) ds1 ds2 ->
+    snd (predict_batch ltb1 zero1 (sup_fit ltb1 zero1 top1 labels w1) ds1)
+    = snd (predict_batch ltb2 zero2 (sup_fit ltb2 zero2 top2 labels w2) ds2) /\
+    n_relevant (fst (predict_batch ltb1 zero1 (sup_fit ltb1 zero1 top1 labels w1) ds1))
+    = n_relevant (fst (predict_batch ltb2 zero2 (sup_fit ltb2 zero2 top2 labels w2) ds2)).
+  Proof.
+    intros HP Hw Hds.
+    destruct (param_predict_batch rel_sentinel ltb1 ltb2 Hltb zero1 zero2
+                (or_introl (conj HPzero Hzero))
+                (sup_fit ltb1 zero1 top1 labels w1) (sup_fit ltb2 zero2 top2 labels w2) ds1 ds2)
+      as [H1 H2].
+    - now apply monotone_transform_sentinel.
+    - unfold dists_rel. clear -Hds. induction Hds as [|d1 d2 l l' Hd _ IH]; constructor; [|exact IH].
+      intros k. left. apply Hd.
+    - split; [exact H2|]. now destruct H1 as (_ & _ & _ & _ & _ & Hr & _).
+  Qed.
+End Sentinel.
